@@ -270,7 +270,7 @@ public:
     //! current object.
     size_t use_count() const noexcept
     {
-        return ptr_->reference_count();
+        return ptr_ ? ptr_->reference_count() : 0;
     }
 
     //! \}
